@@ -45,8 +45,13 @@ def main():
             results["baseline_rc"] = b.returncode
         for c in checks:
             t0 = time.time()
+            # the evidence file belongs to runs on the unchanged tree: keep it aside while a patched tree is checked
+            evp = "/verif/evidence/%s.json" % c
+            saved = open(evp).read() if os.path.exists(evp) else None
             r = subprocess.run(["python3", "/verif/run.py", c, tier], capture_output=True, text=True, env=dict(os.environ, VERIF_SEED=seed), cwd="/verif")
             viol = [l for l in r.stdout.splitlines() if l.startswith("VIOLATION") or l.startswith("  signature") or l.startswith("ERROR") or l.startswith("INCONCLUSIVE")]
+            if saved is not None:
+                open(evp, "w").write(saved)
             verdict = "DETECTED" if r.returncode == 1 else ("MISSED" if r.returncode == 0 else "OTHER(rc=%d)" % r.returncode)
             results[c] = dict(verdict=verdict, rc=r.returncode, wall=round(time.time() - t0, 1), lines=viol[:8])
             print("%s %s %s (%.0fs)" % (c, tier, verdict, time.time() - t0))
